@@ -315,6 +315,30 @@ def long_ops(rng, tier):
     return ops
 
 
+def big_ops(rng, tier):
+    """frames beyond 64 KiB (buffers a reader might treat specially once they are large) interrupted mid-payload"""
+    ops = []
+    for k in range(6 if tier == "quick" else 40):
+        sizes = rng.choice([[70000], [66000, 3, 70000], [5, 65537, 5], [100005, 65536]])
+        vs = [("b", gen.rand_bytes(rng, n)) for n in sizes]
+        ps = [F.payload(v) for v in vs]
+        st = F.frames(ps)
+        ptag = "/".join(gen.hexb(p) for p in ps)
+        ml = max(len(p) for p in ps)
+        parts = F.rand_composition(rng, len(st), rng.choice([20000, 40000, 66000]))
+        evs = []
+        for part in parts:
+            while rng.random() < 0.5:
+                evs.append(rng.choice(["p", "p", "e", "i"]))
+            evs.append(part)
+        evs += tail(len(ps))
+        npolls = sum(1 for e in evs if e in ("p", "e", "i")) + len(ps) + 2
+        pd = rng.choice([0.5, 1.0])
+        acts = "".join("p" + ("d" if rng.random() < pd else "") for _ in range(npolls))
+        ops.append(f"aread {ml} {gen.hexb(st)} {F.script_tok(evs)} {acts} #k=rand #complete=1 #p={ptag}")
+    return ops
+
+
 def mk(name, ops, rule):
     if name != "replay":
         ops = F.ctor_expand(ops)      # every 4th scenario once more through with_buffer(..) with some buffer
@@ -332,6 +356,7 @@ def streams(rng, tier):
         mk("resync", resync_ops(rng, tier), "bad payloads between good frames under random schedules"),
         mk("maxlen", maxlen_ops(rng, tier), "max_len around the frame size, hostile prefixes; oracle: err:len, buffer untouched, allocation bounded"),
         mk("random-walks", random_ops(rng, tier), "seeded random walks; benign ones judged by the oracle, the rest against the model"),
+        mk("big-frames", big_ops(rng, tier), "frames of 65537..100005 bytes delivered in 20..66 KB pieces with Pendings / transient errors mid-payload and drops; oracle: every value once, in order, then none, rem=0"),
         mk("long-streams", long_ops(rng, tier), "31..300 frames in one scenario under chunking, Pendings, transient errors and a drop after every / a third of / no poll; oracle: every value once, in order, then none, rem=0"),
     ]
 
